@@ -330,7 +330,11 @@ class PipelineCorr(Corr):
         es, gs = self._objects(case, "ests"), self._objects(case, "gts")
         es0, gs0 = list(es), list(gs)
         try:
-            res = E["get"](E["task"], es, gs, uuid_matching_first=case["uf"])
+            # "when uuid-first matching is requested": not passing the argument at all must behave like passing False
+            if case["uf"] or (len(es) + len(gs)) % 2 == 0:
+                res = E["get"](E["task"], es, gs, uuid_matching_first=case["uf"])
+            else:
+                res = E["get"](E["task"], es, gs)
         except RuntimeError as e:
             if "uuid of estimation and ground truth must be set" in str(e):
                 return {"error": "uuid_none"}
